@@ -113,6 +113,9 @@ def random_graph_tables(rng, values):
                          ParentNodeId=(rng.choice(ids) if rng.random() < 0.5 else pd.NA), DataType=(rng.choice(ids) if rng.random() < 0.5 else pd.NA),
                          MethodDeclarationId=(rng.choice(ids) if rng.random() < 0.2 else pd.NA)))
     refs = [(rng.choice(ids), rng.choice(ids), rng.choice(ids)) for _ in range(rng.randint(0, 8))]
+    # a reference whose type is no node of the graph (a type of a companion specification that was not loaded): its cell stays empty
+    if refs and rng.random() < 0.3:
+        k = rng.randrange(len(refs)); refs[k] = (refs[k][0], refs[k][1], 77)
     return rows, refs
 
 def make_graph(rows, refs):
@@ -228,7 +231,7 @@ def check(ctx):
                 for c in REF_COLS:
                     if r[c] is not pd.NA: r[c] = f[r[c]]
                 rows2.append(r)
-            refs2 = [(f[a], f[b], f[c]) for a, b, c in refs]; rng.shuffle(refs2)
+            refs2 = [(f[a], f[b], f.get(c, c)) for a, b, c in refs]; rng.shuffle(refs2)
             out2 = impl_tables(rows2, refs2)
             if out2 != out:
                 ctx.fail("C14/not-canonical", dict(kind="table", rows=repr(rows), refs=refs, perm=perm, newid=newid), "normalised tables differ after permutation/renumbering")
